@@ -115,7 +115,7 @@ def judgeLine (j : J) (op : String) (outs : List String) : J × List String :=
     else
     match parseQuery ws with
     | some (.ok (.select q)) =>
-      let cls := if q.list.any (fun d => Spec.isAgg d.item) then "aggregate"
+      let cls := if q.list.any (fun d => Spec.isAgg d.item) || !q.groupBy.isEmpty then "aggregate"
         else match q.from_ with | some (.join ..) => "join" | _ => "select"
       let fields0 := match q.from_ with
         | some tr => (match Spec.fromRows (fetchOf j.st) tr with | some (_, f) => f | none => [])
